@@ -12,7 +12,7 @@ struct Tol
     static constexpr double C_GJ   = 16.0; // Gauss-Jordan forms and Matrix44::inverse general path
     static constexpr double C_ADJ2 = 16.0; // 2x2 adjugate (Matrix22, affine path of Matrix33)
     static constexpr double C_COF3 = 32.0; // 3x3 cofactors (Matrix33 general path, Matrix44 affine path), inputs with amp <= 8
-    static constexpr double C_CONT = 64.0; // continuity across the affine test (two results, two paths)
+    static constexpr double C_CONT = 32.0; // continuity across the affine test (two results, two paths)
     static constexpr double AMP_KNOWN = 8.0; // amplification above which the cofactor path falls under known finding *:sv_gap
 };
 inline double tol_of (Path p)
@@ -51,11 +51,12 @@ template <class T> inline bool bounded_range (const Arr<T>& m)
     return true;
 }
 
-template <class T> inline std::string describe_case (const Arr<T>& M, const char* kind, const char* form, const Arr<T>* X, double cond, double amp, double ratio)
+template <class T> inline std::string describe_case (const Arr<T>& M, const char* kind, const char* form, const Arr<T>* X, double cond, double amp, double ratio, const std::string& want = std::string ())
 {
     Obj o;
     o.kv ("kind", kind).kv ("form", form).kv ("n", M.n).raw ("M", arr_json (M)).kv ("M_bits", arr_bits (M)).kv ("cond_inf", cond).kv ("amp", amp).kv ("err_over_cond_eps_normX", ratio);
     if (X) o.raw ("got", arr_json (*X));
+    if (!want.empty ()) o.raw ("reference_inverse", want);
     return o.str ();
 }
 
@@ -169,7 +170,7 @@ template <class T> void sub_accuracy (Ctx& c, uint64_t idx)
         if (ratio <= C) continue;
         std::string cls = std::string ("acc.") + path_name (p);
         if (gap && (C * amp * cond * eps > 0.5 || ratio <= C * amp)) cls += ":sv_gap";
-        c.fail (key_of (n, f, TName<T>::s (), cls), idx, [&] { return describe_case<T> (M, kname, form_name (f), &X, cond, amp, ratio); });
+        c.fail (key_of (n, f, TName<T>::s (), cls), idx, [&] { return describe_case<T> (M, kname, form_name (f), &X, cond, amp, ratio, arr_json (ref.X)); });
     }
     if (sel == 1) c.sample (kname, [&] { return Obj ().kv ("n", n).kv ("affine", aff).raw ("M", arr_json (M)).kv ("cond_inf", cond).kv ("path", path_name (pinv)).str (); });
 }
